@@ -10,6 +10,7 @@ package timecache
 import (
 	"fmt"
 	"math/rand"
+	"strings"
 	"sync"
 	"time"
 
@@ -250,12 +251,19 @@ func (x xop) emit(h *core.History, now int64) {
 //	quick:    two keys L = 3, one key L = 4
 //	thorough: two keys L = 4, one key L = 5
 func (comp) Exhaustive(prop string, tier string, yield func(*core.History)) {
+	scaleN := 0
+	if strings.HasSuffix(prop, ":scale") {
+		scaleN = 1500 // MONITOR-ONLY: thousands of keys expiring together
+	}
 	// one LARGE-POPULATION history per kind (beyond the small scope): several hundred keys expire together and one sweep must drop
 	// them all; the survivors are exactly the keys refreshed in between (a threshold inside a sweep would show here and nowhere else)
 	for kind := 0; kind < 3; kind++ {
 		n := 700
 		if tier == "thorough" {
 			n = 2100
+		}
+		if scaleN > 0 {
+			n = scaleN
 		}
 		alpha := make([][]byte, n)
 		for j := range alpha {
@@ -288,6 +296,9 @@ func (comp) Exhaustive(prop string, tier string, yield func(*core.History)) {
 		h.Add(opSweep, "Sweep @4h", core.I(4*hour))
 		h.Add(opLen, "Len @4h", core.I(4*hour))
 		yield(h)
+	}
+	if scaleN > 0 {
+		return
 	}
 	spans := []int64{1 * halfHour, 3 * halfHour}
 	advances := []int64{0, hour, 2 * hour}
